@@ -5,7 +5,9 @@ ROOT = os.path.dirname(os.path.dirname(os.path.abspath(__file__)))
 OPS_TECH = "TLA+ trace validation: sessions recorded from the real library are replayed through the BoolOps state machine (TraceOps.tla) and judged by TLC with the exact integer region oracle (Oracle.tla)"
 OPS_NOTE = ("Assumes: operands are valid by construction (generator trusted for validity); TLC evaluates the Layer P operators correctly; "
             "decided domain = inputs whose exact intersection points are integral with |coordinate| <= 2^12 (lattice families, integer affine images, 840-scaled 3x3 lattice triangles); "
-            "beyond the exhaustively enumerated families the input quantifier is seeded exploration judged by the exact oracle.")
+            "beyond the exhaustively enumerated families (3x3-lattice triangle pairs; every pair of subsets of small triangulated lattices, gen.rs en:...) the input quantifier is seeded exploration judged by the exact oracle. "
+            "Float operands without an integer image (irrational affine images of lattice operands, f64 and f32) are judged at generator-chosen witness points by exact integer arithmetic on the bit patterns "
+            "(FloatGeometry.tla; its six primitives are evaluated by a BigInteger module override, FloatGeometry.java, everything above them by TLC): trusted there are the override and the claim that a witness at least 2^-24 (f64) / 2^-14 (f32) of the coordinate magnitude away from every input edge line is 'not within rounding distance'.")
 C = {
  "C01": ("model_checking", "Every recorded call result is compared, on both sides of every atom of the arrangement of the input edges (= on every face), with the Boolean combination computed by exact parity ray casting in TLA+ integers; exhaustive over all 5 776 ordered pairs of 3x3-lattice triangles x 4 operations (thorough), seeded over triangulated-lattice operands incl. affine images, all 4 trait pairings, f64 and f32.", "6 C01"),
  "C02": ("model_checking", "PolygonSetValid is evaluated by TLC on every recorded result: no atom covered twice, holes inside their exterior and outside sibling holes (every atom of every hole), polygons pairwise interior-disjoint and polygon reading = even-odd reading on both sides of every atom.", "6 C02"),
@@ -27,21 +29,25 @@ D = {
  "C14": ("model_checking", "ClassificationOK: for every processed sub-segment that is an atom of the input arrangement, in_out / other_in_out / in_result / transition must equal the oracle's membership of its two sides (vertical: below = right side); coincident twins by the pair clause; prev_in_result must be a non-vertical result edge below (stale inherited pointers are the recorded finding N3).", "6 C14", STG_TECH, STG_NOTE),
  "C15": ("model_checking", "EventOrderOK: every recorded comparison (all pairs for small runs, neighbours + sample otherwise, before and after subdivision) is never Equal, antisymmetric, consistent with one linear order (hence transitive) and equal to the order of the statement (x, y, right before left, lower segment first, subject first). SegmentOrderOK: Equal only for the identical segment, antisymmetric, and agreement with exact vertical separation for non-crossing pairs (stacked collinear verticals of different operands: recorded finding N4).", "6 C15", STG_TECH, STG_NOTE),
  "C16": ("model_checking", "TLC enumerates every ordered pair of lattice segments (3x3, 4x4; 5x5 in thorough) with operand/flag combinations, each scaled by its determinant; every tuple is replayed through the real possible_intersection (f64 and f32) and the outcome judged by PossibleIntersectionOK: code, untouched on none/end-point contact, split exactly the segments containing the point in their interior at one bit-identical point that equals the exact intersection and lies in both boxes, overlap cuts and edge types.", "6 C16",
-         "TLC-enumerated argument space (MC_PI.tla) replayed through the real function, outcomes judged by TLC (TracePI.tla / Stages.tla)", "Coordinates after scaling <= 2^7: the statement's 2^25 range and arbitrary floats are outside what TLC decides (DESIGN section 8); events built with the public constructor/setters."),
+         "TLC-enumerated argument space (MC_PI.tla) replayed through the real function, outcomes judged by TLC (TracePI.tla / Stages.tla)", "Enumerated tuples: coordinates after scaling <= 2^7. The statement's 2^25 range is reached by the exact float pass (integer-valued floats up to 2^30, decided on the bit patterns through the FloatGeometry override), restricted to robust configurations; near-degenerate float pairs are judged only on the float-decidable clauses (TracePIFloat). Events built with the public constructor/setters."),
  "C17": ("model_checking", "TLC explores every tree reachable over keys 1..5 (quick) / 1..6 (thorough), values {1,2}, all operations incl. absent-key lookups and consuming iteration in both directions, checking refinement of SortedMap at every transition; EVERY transition of that state graph is replayed through the real SplayTree and SplaySet (return value, paired value, len, Debug shape); seeded random histories (up to 2000 ops, 20 keys, extend, hold/check of handed-out references, mixed-direction iteration with early drop) are validated by TLC against the contract and shape for shape against the transcription.", "6 C17",
          "exhaustive TLC model (MC_Splay.tla: SplayTree.tla refines SortedMap.tla) + replay of every model transition through the real tree + TLC trace validation of recorded histories (TraceSplay.tla)", "Keys are integers with the natural order; a shape-only difference is reported as SPEC-DRIFT, not as a violation."),
  "C18": ("exploration", "Scenario events (insertion order x action on 2*10^5 / 3*10^6 keys; Boolean operations on combs, grids, staircases up to 10^6 edges; 8 MiB and 2 MiB stacks) are recorded from child processes with a painted stack and judged by TLC (TraceStack.tla): exit ok and high-water mark <= 64 KiB independent of n. The explicit-depth model (MC_Splay: C18_StackBounded) states the design requirement for every reachable tree.", "6 C18",
          "child-process scenarios with painted-stack high-water mark, judged by TLC against TraceStack.tla; explicit stack-depth invariant in MC_Splay.tla", "The large-n quantifier is sampled by structured scenarios; the model's exhaustive exploration stops at 6 keys."),
 }
 EXTRA = {
- "C01": " Two crossing combs (up to 160 teeth, ~10^5 result polygons in thorough) are judged by a closed-form result contract in TraceStack.tla (polygon count and area as functions of the number of teeth); the model's own inputs (MC_Sweep families) are answered by the real code and judged by the same laws.",
+ "C01": " Enumerated families: every pair of cell sets of a 3x2 grid, of subsets of 8 triangles (two triangulations), of cell sets against half-cell-shifted triangle sets (exhaustive in thorough, strided in quick). Float operands (random affine images with irrational entries, f64 and f32, incl. every pair of 3x2 cell sets in thorough) are judged at witness points by C01_WitnessF, exactly on the floats. Layer M (Sweep.tla) is also run on the inputs of generator families (MC_Sweep Family file: enumerated cell sets, slivers hanging into the other box) with all M |= P invariants and replayed through the code. Two crossing combs (up to 160 teeth, ~10^5 result polygons in thorough) are judged by a closed-form result contract in TraceStack.tla (polygon count and area as functions of the number of teeth); the model's own inputs (MC_Sweep families) are answered by the real code and judged by the same laws.",
+ "C02": " Also on float operands (C02_WitnessF: no witness in two polygons, polygon reading = even-odd reading at every witness, no edge listed twice bitwise), on enumerated 3x3 cell sets (holes, diagonal neighbours) and on bounding boxes that merely touch (family cxsplit); Layer M on generator families pinch / onion / lamina.",
+ "C03": " Enumerated and float families run in both build profiles as well.",
+ "C04": " On float operands C04_F decides the same clauses exactly on the bit patterns: closed, >= 3 distinct vertices, non-zero area, counter-clockwise when the sweep ran, every edge within 2^-30 (f64) / 2^-16 (f32) of the coordinate magnitude of ONE input edge, every vertex an input vertex bitwise or that close to two input edges on different lines.",
+ "C10": " f32 float operands (irrational affine images) are judged by the exact float laws with single-precision tolerances.",
  "C05": " The laws are proved consequences of the contract for arbitrary regions (TLAPS, BoolOpsLaws.tla) and checked on bounded call histories (BoolOpsAbs.tla).",
- "C06": " The laws are proved consequences of the contract for arbitrary regions (TLAPS, BoolOpsLaws.tla) and checked on bounded call histories (BoolOpsAbs.tla); A op A is called both with two equal objects and with one object passed twice.",
+ "C06": " Bounding boxes that merely touch (family cxsplit: tips on the interior of a long side, sides shared in part) must give the obvious result as a region read polygon by polygon and as a valid polygon set (C06_TouchingBoxes). The laws are proved consequences of the contract for arbitrary regions (TLAPS, BoolOpsLaws.tla) and checked on bounded call histories (BoolOpsAbs.tla); A op A is called both with two equal objects and with one object passed twice.",
  "C09": " Crossing-comb scenarios with and without a far part are judged by the closed-form contract of TraceStack.tla; the far-part lemmas are proved in BoolOpsLaws.tla (TLAPS).",
- "C11": " Half of the chain sessions run on operands normalised by the library itself (A u A, B n B), so that fed-back results can coincide ring by ring with operands; the named identities are proved in BoolOpsLaws.tla (TLAPS).",
- "C12": " Pure-f32 / pure-f64 sessions are recorded in two processes (cold, and after a warm-up call of the other type on another thread) and merged, so that equal calls are compared across process histories; equal operands are passed both as two objects and as one aliased object.",
- "C16": " The same tuples are replayed with a queue that already holds an unrelated event of matching identity at an end point of the other segment (what the step adds must not depend on it).",
- "C17": " The contract covers get_mut / Index / IndexMut / is_empty / extend and the derived iterator forms nth / nth_back as well.",
+ "C11": " Chained calls on float operands (families whose results contain no computed points) are judged at witness points against the Boolean expression over the base operands. Half of the chain sessions run on operands normalised by the library itself (A u A, B n B), so that fed-back results can coincide ring by ring with operands; the named identities are proved in BoolOpsLaws.tla (TLAPS).",
+ "C12": " Equal operands that are not bit-identical (every zero handed over as -0.0) must give equal results (C12_EqualOperands). Pure-f32 / pure-f64 sessions are recorded in two processes (cold, and after a warm-up call of the other type on another thread) and merged, so that equal calls are compared across process histories; equal operands are passed both as two objects and as one aliased object.",
+ "C16": " An exact pass on FLOAT pairs (TracePIExact.tla): needles crossing at angles down to 2^-30, integer-valued coordinates up to 2^30 (f32: 2^20) in power-of-two frames, general crossings, exact T-touches, common end points, end points on the other line beyond the segment - classified exactly from the orientation signs of the bit patterns, only robust configurations judged, every clause of the statement demanded. The same tuples are replayed with a queue that already holds an unrelated event of matching identity at an end point of the other segment (what the step adds must not depend on it).",
+ "C17": " A difference in the CONTENT of the rendered tree (its key / value pairs in symmetric order) is a contract failure, a difference in arrangement is drift; trace validation continues after a drift, so a rearranging refactoring never switches the contract off. The contract covers get_mut / Index / IndexMut / is_empty / extend and the derived iterator forms nth / nth_back as well.",
  "C18": " Scenarios include the derived iterator forms (nth, skip, step_by, last, fold), min / max on unsplayed chains and a vertex of degree 10^5 (hub).",
 }
 
